@@ -21,6 +21,8 @@ import TboxModel.C17.Sim7
 import TboxModel.C17.ReentProofs
 import TboxModel.C17.Ids
 import TboxModel.C17.ExecLog
+import TboxModel.C17.Rerun
+import TboxModel.C17.Local
 namespace Tbox.C17
 
 /-! ## Layer 1 — one action, every call sequence
@@ -383,6 +385,39 @@ theorem C17_run_ids_distinct (t : T) (ops : List Op) (hc : Clean t = true) :
     ((allTasks (run t {} ops).1 []).map (·.1)).Nodup ∧ ∀ x ∈ allTasks (run t {} ops).1 [], x.1 < (run t {} ops).2.nextId :=
   idsOk_plain _ _ (run_idsOk ops t {} (fun id => by rw [cnt_clean t hc id]; simp [cntU]))
 
+/-- **running a task is local (M3, second step)**: `runTask id` runs a handler at one node (`handlerPath`: the parent
+of the posting node for a finish / block notification, the posting node for a replay); every subtree that
+lies in another branch is left exactly as it was.  With `C17_run_ids_distinct` the id addresses one task. -/
+theorem C17_run_task_local (t : T) (g : G) (id : Nat) (p : List Nat) (hp : handlerPath t id = some p) (q : List Nat) (hq : Apart p q) :
+    subAt (runTask t g id).1 q = subAt t q :=
+  runTask_local t g id p hp q hq
+
+/-- **a reset tree behaves like a freshly built one** (reset bisimulation, for the covered class and a second run
+without control calls): after ANY history — control calls at any pass, back to back, deferred, emits, clock
+steps; the first run finished, stopped, paused or still under way —, provided no deferred script call is
+still queued, `do reset`, `do start` and then loop passes and clock steps produce what a first run produces:
+a prefix of the documented visit order, or all of it followed by exactly ONE finish notification with the
+documented result; and with `cost t + 1` big ops the complete trace IS reached. -/
+theorem C17_rerun_after_reset (t0 : T) (hs : SerOk t0 = true) (hc : Clean t0 = true) (hist : List Op) (hu : (run t0 {} hist).2.user = [])
+    (ops : List Op) (hcf : ops.all cfOp = true) (r : Bool × Nat) (hr : eval t0 = some r) :
+    (∃ pfx, pfx <+: visit t0 ∧
+      trOf (run t0 {} (hist ++ (.calls [.reset] :: .calls [.start] :: ops))).2.log = trOf (run t0 {} hist).2.log ++ pfx.map Sum.inl) ∨
+    trOf (run t0 {} (hist ++ (.calls [.reset] :: .calls [.start] :: ops))).2.log =
+      trOf (run t0 {} hist).2.log ++ (visit t0).map Sum.inl ++ [Sum.inr r] :=
+  rerun_matches_doc t0 hs hc hist hu ops hcf r hr
+
+theorem C17_rerun_finishes_exactly_once (t0 : T) (hs : SerOk t0 = true) (hc : Clean t0 = true) (hist : List Op)
+    (hu : (run t0 {} hist).2.user = []) (ops : List Op) (hcf : ops.all cfOp = true) (M : Nat) (hM : maxDelay t0 ≤ M)
+    (hbig : cost t0 + 1 ≤ bigCount M ops) (r : Bool × Nat) (hr : eval t0 = some r) :
+    trOf (run t0 {} (hist ++ (.calls [.reset] :: .calls [.start] :: ops))).2.log =
+      trOf (run t0 {} hist).2.log ++ (visit t0).map Sum.inl ++ [Sum.inr r] :=
+  rerun_finishes_once t0 hs hc hist hu ops hcf M hM hbig r hr
+
+/-- on `docTree`: first run paused in the middle and stopped, then reset and run again -/
+example : trOf (run docTree {} ([.calls [.start], .pass, .calls [.pause], .adv 200, .calls [.stop], .pass] ++
+      (.calls [.reset] :: .calls [.start] :: [.pass, .pass, .adv 200, .pass, .pass, .pass, .pass, .pass]))).2.log =
+    [Sum.inl 1, Sum.inl 3] ++ [Sum.inl 1, Sum.inl 3, Sum.inl 7] ++ [Sum.inr (true, 2)] := by decide +kernel
+
 /-! ## Re-entrant control: callback scripts on the root (Reent.lean, ReentProofs.lean)
 
 `runR t {} ops`: the ops of `run`, plus `cb final|fin|blk <calls>`: attach a one-shot script to the root's
@@ -530,15 +565,13 @@ example : (Exec.xrun {} [.append .dummy 2, .append .dummy 2, .append .dummy 0, .
 -- OPEN (model): a faithful model of these runs needs resumable continuations — the functions of Model.lean are local (a
 --   call returns the new subtree to its caller, which holds a copy of its own node); every function that can have a
 --   call-out beneath it would return "interrupted at path p with the rest of the frames".
--- OPEN (finding, not repaired): random free runs with SEVERAL scripts and control calls still end, now and then, in a
---   Running composite that waits for nothing (`settle`), e.g.
---     tree ( seq:all ( wr:f Z3 ) ( wr:n Fs ) ( seq:anyf ) ) ; icb final 0 0 reset start ; do start ; do reset pause ; pass ; pass ;
---     defer start ; adv 1 ; pass ; pass ; adv 6 ; pass ; pass ; pass ; settle
---   (the directed set — one script, at most one control call — is clean with `settle`); control calls on INNER nodes from
---   call-outs are misuse (the parent keeps its own bookkeeping) and are not generated.
--- OPEN M3 (Parallel in the whole-tree theorem): closed so far `C17_run_ids_distinct` (`step_idsOk`).  Missing: (i) locality —
---   `runTask t g id` with the task at path p only changes `subAt t p'` for the parent path p' (from `idsOk_plain` +
---   `allTasks_at`); (ii) `RunOk` for several active children: `AP` (at most one queued task) replaced by "every child is
+-- (decided) the "stuck composite" seen in random free runs of round 7 was the harness evaluating `settle` before the
+--   queue had drained (every level of the tree needs one pass to hand its notification up): `settle` now lets
+--   2·nodes+4 passes run first; 30000 random free runs with several scripts and control calls are clean on HEAD, and
+--   `settle` is back in the random free generator.  Control calls on INNER nodes from call-outs are misuse (the parent
+--   keeps its own bookkeeping) and are not generated.
+-- OPEN M3 (Parallel in the whole-tree theorem): closed so far `C17_run_ids_distinct` (`step_idsOk`) and
+--   `C17_run_task_local`.  Missing: (ii) `RunOk` for several active children: `AP` (at most one queued task) replaced by "every child is
 --   AP", and the trace clause by "the trace restricted to the leaves of child i is a prefix of / equals `visit c_i`" (an
 --   interleaving); (iii) the lockstep lemma: one pass = one `step` of every active child, in run-id order.
 -- OPEN T (timeouts in the evaluator's domain): `evalT : T → Option (Bool × Nat × Nat)` with the finishing time needs
@@ -549,9 +582,12 @@ example : (Exec.xrun {} [.append .dummy 2, .append .dummy 2, .append .dummy 0, .
 --   replay queued in its subtree, or its timeout armed" (and the analogue for ParallelAction) through every handler.
 -- OPEN `stepR` with no script attached is `step` (the driver runs `step` itself in that case): needs the frame lemma
 --   "no function of Model.lean changes `g.scr`".
--- OPEN C17_reset_bisim: after `reset` every later op sequence produces the same observable trace as on
---   the freshly built tree (equal up to run ids and the dead fields).  Proved: `Clean` + `WF` of the
---   reset tree (`C17_reset_fresh`); the driver's differential runs contain reset-then-rerun histories.
+-- OPEN C17_reset_bisim, general form: after `reset` EVERY later op sequence (with control calls) produces the same
+--   observable trace as on the freshly built tree, for every kind.  Closed: `C17_reset_fresh` (Clean + WF),
+--   `C17_skeleton_preserved`, and `C17_rerun_after_reset` / `C17_rerun_finishes_exactly_once` (covered class, second run
+--   without control calls, after ANY first history).  Missing for the general form: a relation `Sim t t'` "equal up to
+--   the dead fields (finId, blkId, replayId, finishTime, remain, remainTimes) and a shift of run ids and clock", and
+--   `step` preserving it — every handler reads those fields only after writing them in the same run.
 -- ActionExecutor: one-at-a-time, heads-only, highest-priority-first and callbacks-once are proved.  Observations
 --   (not defects of the invariants): cancelAll() only stops the heads and neither removes anything nor calls
 --   schedule(); cancel(id) deletes a Running action without stop(): reported, modelled as is.
